@@ -80,7 +80,7 @@ def exc_info(ex):
 
 
 def run_genotype(db, sam, profile, out_path=None, cn_region=None, cn_solution=None,
-                 genome=None, debug=None, is_simple=False, params=None, solver="cbc"):
+                 genome=None, debug=None, is_simple=False, params=None, solver="cbc", report=False):
     """Call aldy.genotype.genotype(); returns a JSON-able record."""
     from aldy.common import parse_cn_region
     from aldy.genotype import genotype
@@ -101,6 +101,7 @@ def run_genotype(db, sam, profile, out_path=None, cn_region=None, cn_solution=No
             debug=debug,
             genome=genome,
             is_simple=is_simple,
+            report=report,
             **(params or {}),
         )
         rec["_raw"] = res
